@@ -284,12 +284,24 @@ func (g *generator) walkAllOf(schema *openapi3.Schema) (ast.Type, error) {
 
 func (g *generator) walkOneOf(schema *openapi3.Schema) (ast.Type, error) {
 	discriminator, mapping := g.getDiscriminator(schema)
-	return g.walkDisjunctions(schema.OneOf, discriminator, mapping)
+	t, err := g.walkDisjunctions(schema.OneOf, discriminator, mapping)
+	if err != nil {
+		return ast.Type{}, err
+	}
+
+	t.Nullable = schema.Nullable
+	return t, nil
 }
 
 func (g *generator) walkAnyOf(schema *openapi3.Schema) (ast.Type, error) {
 	discriminator, mapping := g.getDiscriminator(schema)
-	return g.walkDisjunctions(schema.AnyOf, discriminator, mapping)
+	t, err := g.walkDisjunctions(schema.AnyOf, discriminator, mapping)
+	if err != nil {
+		return ast.Type{}, err
+	}
+
+	t.Nullable = schema.Nullable
+	return t, nil
 }
 
 func (g *generator) walkEnum(schema *openapi3.Schema) (ast.Type, error) {
